@@ -2,7 +2,7 @@
    oracle ([oracle_turns] of Spec/Oracles.v, the predicate evaluated on the logs
    observed on the implementation) for EVERY configuration without COPY handlers,
    every state and every list of client frames. *)
-Require Import Wire.Bytes Spec.BackendSpec Wire.Errors Wire.Framing Wire.Session
+Require Import Wire.Bytes Spec.BackendSpec Spec.BackendSpecFacts Wire.Errors Wire.Framing Wire.Session
   Wire.SessionFacts Wire.CommandFacts Wire.RobustFacts Wire.Case Spec.Oracles.
 From Coq Require Import String.
 Local Open Scope string_scope.
@@ -1108,5 +1108,89 @@ Proof.
     injection Hauth as _ <-. unfold client_frames. unfold start in Es. cbn [cfg_of_case cfg_limit] in *.
     destruct (untyped (sc_limit sc) (sc_raw sc)) as [[body rest0]|]; [|discriminate].
     destruct (p_u32 body) as [[v0 after0]|]; [|discriminate]. injection Es as _ _ <-. rewrite Ha. reflexivity. }
+  unfold cycles_verdict in V. destruct (turns (run_case sc)) as [|t0 ts]; [reflexivity|exact V].
+Qed.
+
+(* ====================================================================== *)
+(* with password authentication: the frames the session handles are the ones the
+   oracle reads off the client's byte stream behind the password message *)
+Lemma skipn_app_length {A} (a b : list A) : skipn (List.length a) (a ++ b) = b.
+Proof. induction a as [|x a IH]; [reflexivity|exact IH]. Qed.
+
+Lemma frames_fuel_msg f L t a b c4 d r body rest :
+  (rd32 a b c4 d - 4 <? 0) = false -> (rd32 a b c4 d - 4 >? eff_limit L) = false ->
+  takeZ (rd32 a b c4 d - 4) r = Some (body, rest) ->
+  fst (frames_fuel (S f) L (t :: a :: b :: c4 :: d :: r)) = FMsg t body :: fst (frames_fuel f L rest).
+Proof.
+  intros E1 E2 E3. cbn [frames_fuel]. rewrite E1, E2, E3. destruct (frames_fuel f L rest). reflexivity.
+Qed.
+
+Lemma auth_rest c validate cparams s aevs s' :
+  cfg_auth c = Some validate -> auth_phase c cparams s = (aevs, s', true) ->
+  exists t body fs0, fst (frames (cfg_limit c) s) = FMsg t body :: fs0 /\ skipn (5 + List.length body) s = s'.
+Proof.
+  unfold auth_phase. intros Hv H. rewrite Hv in H.
+  destruct s as [|t [|a [|b [|c4 [|d r]]]]]; try discriminate.
+  destruct ((rd32 a b c4 d - 4 <? 0) || (rd32 a b c4 d - 4 >? eff_limit (cfg_limit c))) eqn:E1; [discriminate|].
+  destruct (takeZ (rd32 a b c4 d - 4) r) as [[body rest0]|] eqn:E2; [|discriminate].
+  destruct (negb (Byte.eqb t x70)); [discriminate|].
+  destruct (take_cstr body) as [[pw x]|]; [|discriminate].
+  destruct (validate _ _ pw); try discriminate. injection H as _ <-.
+  apply orb_false_iff in E1 as [E1a E1b].
+  exists t, body. unfold frames. cbn [List.length].
+  rewrite (frames_fuel_msg _ _ t a b c4 d r body rest0 E1a E1b E2). eexists. split; [reflexivity|].
+  apply takeZ_inv in E2 as [-> _]. cbn [skipn plus]. apply skipn_app_length.
+Qed.
+
+Lemma case_frames sc v after rest cparams aevs s' :
+  start (cfg_of_case sc) (sc_raw sc) = Some (v, after, rest) ->
+  auth_phase (cfg_of_case sc) cparams rest = (aevs, s', true) ->
+  client_frames sc = fst (frames (cfg_limit (cfg_of_case sc)) s').
+Proof.
+  intros Es Hauth. unfold client_frames. unfold start in Es. cbn [cfg_of_case cfg_limit] in *.
+  destruct (untyped (sc_limit sc) (sc_raw sc)) as [[body rest0]|]; [|discriminate].
+  destruct (p_u32 body) as [[v0 after0]|]; [|discriminate]. injection Es as _ _ <-.
+  destruct (sc_auth sc) as [[m pw]|] eqn:Ha.
+  - destruct (auth_rest (cfg_of_case sc) (validator m pw) cparams rest0 aevs s') as (t & b & fs0 & F & S); [|exact Hauth|].
+    { cbn [cfg_of_case cfg_auth]. rewrite Ha. reflexivity. }
+    cbn [cfg_of_case cfg_limit] in F. destruct (frames (sc_limit sc) rest0) as [fl tl]. cbn [fst] in F. subst fl.
+    rewrite S. reflexivity.
+  - unfold auth_phase in Hauth. cbn [cfg_of_case cfg_auth] in Hauth. rewrite Ha in Hauth.
+    injection Hauth as _ <-. reflexivity.
+Qed.
+
+(* the two oracle theorems without the restriction on authentication *)
+Theorem oracle_turns_model_auth sc :
+  case_nocopy sc = true ->
+  (forall v after rest, start (cfg_of_case sc) (sc_raw sc) = Some (v, after, rest) -> v <> version_ssl) ->
+  oracle_turns sc (run_case sc) = true.
+Proof.
+  intros Hn Hssl.
+  assert (V : verdict_ok (client_frames sc) (run_case sc)).
+  { unfold run_case, serve.
+    destruct (start (cfg_of_case sc) (sc_raw sc)) as [[[v after] rest]|] eqn:Es; [|apply (verdict_short _ []); reflexivity].
+    destruct (v =? version_cancel); [apply (verdict_short _ []); reflexivity|].
+    destruct (Z.eqb_spec v version_ssl) as [->|_]; [exfalso; eapply Hssl; eauto|].
+    apply session_turns; [apply case_cfg_nocopy; exact Hn|apply case_text_safe|].
+    intros cparams aevs s' _ Hauth. eapply case_frames; eauto. }
+  destruct V as [V1 V2]. unfold oracle_turns, turn_verdict. rewrite V1.
+  destruct (turns (run_case sc)) as [|t0 ts]; [contradiction|].
+  destruct V2 as (V2 & V3 & V4). rewrite V2, V3, V4. reflexivity.
+Qed.
+
+Theorem oracle_C05_model_auth sc :
+  case_nocopy sc = true ->
+  (forall v after rest, start (cfg_of_case sc) (sc_raw sc) = Some (v, after, rest) -> v <> version_ssl) ->
+  oracle_C05 sc (run_case sc) = true.
+Proof.
+  intros Hn Hssl. unfold oracle_C05. rewrite (oracle_turns_model_auth sc Hn Hssl). cbn [andb].
+  destruct (t_copy (turn_verdict sc (run_case sc))); [reflexivity|].
+  assert (V : cycles_verdict (client_frames sc) (run_case sc)).
+  { unfold run_case, serve.
+    destruct (start (cfg_of_case sc) (sc_raw sc)) as [[[v after] rest]|] eqn:Es; [|apply (cycles_short _ []); reflexivity].
+    destruct (v =? version_cancel); [apply (cycles_short _ []); reflexivity|].
+    destruct (Z.eqb_spec v version_ssl) as [->|_]; [exfalso; eapply Hssl; eauto|].
+    apply session_cycles; [apply case_cfg_nocopy; exact Hn|apply case_text_safe|].
+    intros cparams aevs s' _ Hauth. eapply case_frames; eauto. }
   unfold cycles_verdict in V. destruct (turns (run_case sc)) as [|t0 ts]; [reflexivity|exact V].
 Qed.
